@@ -642,6 +642,12 @@ fn c12_grid<T: HElem, S: Strat<Elem = T>>(acc: &mut Acc, cols: &[Vec<T>], rng: &
                 acc.violation("grid", None, cj(format!("grid has {} axes for {} columns", grid.ndim(), d)));
                 return false;
             }
+            // the counts array has one cell per combination of bins: keep it allocatable
+            let cells: u128 = grid.shape().iter().map(|&b| b as u128).product();
+            if cells > 4_000_000 {
+                acc.count("grid_too_many_cells_skipped");
+                return true;
+            }
             let h = v.histogram(grid);
             let total: usize = h.counts().sum();
             if total != n {
@@ -658,7 +664,7 @@ fn gen_data<T: HElem>(rng: &mut Rng, n: usize, class: usize) -> (Vec<T>, &'stati
     let fi = |x: i64| T::from_i64(x).unwrap();
     if T::FLOAT {
         let ff = |x: f64| T::from_f64(x).unwrap();
-        match class % 10 {
+        match class % 14 {
             0 => ((0..n).map(|i| ff(i as f64 * 0.1)).collect(), "i*0.1"),
             1 => ((0..n).map(|_| ff(rng.range(0, 1000) as f64 / 100.0)).collect(), "k/100"),
             2 => ((0..n).map(|_| ff(1.0e6 + rng.range(0, 100) as f64 * 0.01)).collect(), "1e6 + k*0.01"),
@@ -668,7 +674,18 @@ fn gen_data<T: HElem>(rng: &mut Rng, n: usize, class: usize) -> (Vec<T>, &'stati
             6 => ((0..n).map(|_| ff(rng.normal() * 1e6)).collect(), "magnitude 1e6"),
             7 => ((0..n).map(|_| ff(rng.normal() * 1e-6)).collect(), "magnitude 1e-6"),
             8 => ((0..n).map(|i| ff(i as f64 * 0.001)).collect(), "i*0.001"),
-            _ => ((0..n).map(|_| ff(rng.unit() * 10f64.powi(rng.range(-3, 3) as i32))).collect(), "mixed magnitudes"),
+            9 => ((0..n).map(|_| ff(rng.unit() * 10f64.powi(rng.range(-3, 3) as i32))).collect(), "mixed magnitudes"),
+            10 => ((0..n).map(|i| ff((i + 1) as f64 * 0.1)).collect(), "(i+1)*0.1 (ramp, non-zero minimum)"),
+            11 => ((0..n).map(|i| ff(1.0e6 + i as f64 * 0.01)).collect(), "1e6 + i*0.01 (ramp)"),
+            12 => {
+                let a = rng.range(1, 50) as f64 * 0.1;
+                let h = *rng.pick(&[0.1, 0.01, 0.3, 0.7, 1.1]);
+                ((0..n).map(|i| ff(a + i as f64 * h)).collect(), "a + i*h (ramp, decimal a and h)")
+            }
+            _ => {
+                let a = -(rng.range(1, 50) as f64) * 0.1;
+                ((0..n).map(|i| ff(a + i as f64 * 0.1)).collect(), "negative start ramp")
+            }
         }
     } else {
         let nonneg = T::from_i64(-1).is_none();
@@ -687,7 +704,7 @@ fn gen_data<T: HElem>(rng: &mut Rng, n: usize, class: usize) -> (Vec<T>, &'stati
 }
 
 fn c12_case<T: HElem>(rng: &mut Rng, acc: &mut Acc, thorough: bool) {
-    let sizes: &[usize] = if thorough { &[0, 1, 2, 3, 5, 10, 31, 100, 333, 1000, 10_000] } else { &[0, 1, 2, 3, 5, 10, 31, 100, 333, 1000] };
+    let sizes: &[usize] = if thorough { &[0, 1, 2, 3, 5, 8, 10, 31, 41, 48, 100, 333, 1000, 10_000] } else { &[0, 1, 2, 3, 5, 8, 10, 31, 41, 48, 100, 333, 1000] };
     let mut n = *rng.pick(sizes);
     if n == 10_000 && !rng.chance(0.1) {
         n = 100;
@@ -695,7 +712,7 @@ fn c12_case<T: HElem>(rng: &mut Rng, acc: &mut Acc, thorough: bool) {
     if n == 1000 && !rng.chance(0.3) {
         n = 31;
     }
-    let class = rng.below(10);
+    let class = rng.below(14);
     let (data, cname) = gen_data::<T>(rng, n, class);
     acc.count(&format!("elem_{}", T::NAME));
     acc.count(&format!("n_{}", n));
